@@ -299,6 +299,9 @@ def agrees(case, impl, model):
         asis, _, fixed = model[2:].partition(" ; ")
         i = "K panic" if impl.startswith("K panic") else impl
         return i == "K " + asis or i == "K " + fixed
+    if case.startswith("C "):
+        asis, _, fixed = model.partition(" ;; ")
+        return impl == asis or impl == fixed     # fixed: findings/C12_code_expiry.diff applied
     if case.startswith("T ") and ("initerr" in impl or "vinit:err" in impl) and serial_out_of_range(case):
         return True      # repaired Init (findings/C12_token_serial.diff) rejects such configurations
     return impl == model
@@ -382,13 +385,16 @@ def mon_code(c, r, a, fails):
     mr = int(w[3])
     ops, outs = w[4:], r.split()[1:-1]
     d = auxd(a)
-    succ, failed = {}, {}
+    succ, failed, touched = {}, {}, {}
+    clock, life = 0, int(w[2])
     for i, (op, o) in enumerate(zip(ops, outs)):
         f = op.split(":")
-        if f[0] == "G":
+        if f[0] == "ADV":
+            clock += int(f[1])
+        elif f[0] == "G":
             if o.startswith("G:ok"):
                 k = sanitize(unhx(f[1]))
-                succ[k], failed[k] = 0, 0
+                succ[k], failed[k], touched[k] = 0, 0, clock
                 if o != "G:ok:%s:1:1" % w[1]:
                     fails.append(("code-format", c, "op %d: code is not %s decimal digits stored with counter 0" % (i, w[1])))
         elif f[0] in ("A", "S"):
@@ -405,9 +411,13 @@ def mon_code(c, r, a, fails):
                     fails.append(("code-once", c, "op %d: second successful use of one reset code" % i))
                 elif failed[k] >= mr:
                     fails.append(("code-lockout", c, "op %d: success after %d failed attempts (max_retries %d)" % (i, failed[k], mr)))
+                elif clock - touched[k] > life:
+                    fails.append(("code-outlives-lifetime", c, "op %d: code accepted %d s after it was issued / last touched (expire_in %d s)" % (i, clock - touched[k], life)))
                 succ[k] = succ.get(k, 0) + 1
             elif k in failed:
                 failed[k] += 1
+                if failed[k] <= mr:
+                    touched[k] = clock      # a counted wrong guess rewrites the row (REPLACE sets createdat)
 
 
 def mon_basic(c, r, a, fails):
